@@ -48,14 +48,13 @@ func (v *Validator) IsValidOriginalDocument(payload []byte) error {
 		return err
 	}
 
-	// Sidetree rule: The document must NOT have the id property
-	if didDoc.ID() != "" {
+	// Sidetree rule: The document must NOT have the id property (of whatever JSON type)
+	if _, ok := didDoc[document.IDProperty]; ok {
 		return errors.New("document must NOT have the id property")
 	}
 
-	// Sidetree rule: must not have context
-	ctx := didDoc.Context()
-	if len(ctx) != 0 {
+	// Sidetree rule: must not have context (in any of its forms: string, object or list)
+	if _, ok := didDoc[document.ContextProperty]; ok {
 		return errors.New("document must NOT have context")
 	}
 
